@@ -638,3 +638,82 @@ class StartComponentPublic(FnSpec):
 
 def register3(reg):
     reg.add(StartComponentPublic)
+
+
+class AddComponent(FnSpec):
+    """C14: Component.add_component(alias, type=None, **config): refused once start_component() has taken the component (RuntimeError), for
+    a non-string or empty alias (TypeError) and for an alias already present (ValueError) - each before anything is written; otherwise stores
+    under the alias a new dict {'type': type or alias, **config} in the component's own child table (created on first use) and touches no
+    other entry."""
+    qual = "_component.Component.add_component"
+    properties = ("C14",)
+    param_types = {"alias": ANY, "type": ANY, "config": DICT(TSTR, ANY)}
+    modifies = frozenset({"d_has", "d_get", "d_len", "fld:_child_components", "g:owner"})
+    may_raise = True
+    check_guarantee = False
+
+    def requires(self, F):
+        s = F.addr("self")
+        cc = F.old.fld("_child_components", s)
+        return [("child-table-none-or-own-dict", z3.Or(cc == VNone, z3.And(Val.is_ref(cc), is_dict_u(cc), 0 <= Val.a(cc), Val.a(cc) < F.old.alloc)))]
+
+    def _bad(self, F):
+        s = F.addr("self")
+        alias = F.t("alias")
+        cc = F.old.fld("_child_components", s)
+        started = F.eng.truth(F.old_st, SV(F.old.fld("_component_started", s), TBOOL))
+        bad_alias = z3.Or(z3.Not(isstr(alias)), alias == sid(""))
+        dup = z3.And(cc != VNone, F.old.d_has(Val.a(cc), alias))
+        return started, bad_alias, dup
+
+    def ensures(self, F):
+        s = F.addr("self")
+        alias, ty = F.t("alias"), F.t("type")
+        started, bad_alias, dup = self._bad(F)
+        cc_new = F.new.fld("_child_components", s)
+        t = Val.a(cc_new)
+        e = F.new.d_get(t, alias)
+        k = z3.Const("k!ac", Val)
+        cfg = F.addr("config")
+        old_cc = F.old.fld("_child_components", s)
+        truthy_ty = z3.And(ty != VNone, ty != sid(""), z3.Implies(Val.is_bool(ty), Val.b(ty)))
+        return [
+            ("accepted-only-when-allowed", z3.And(z3.Not(started), z3.Not(bad_alias), z3.Not(dup))),
+            ("child-table-kept-or-created", z3.If(old_cc == VNone, F.fresh(cc_new), cc_new == old_cc)),
+            ("stored-under-the-alias-a-new-dict", z3.And(F.new.d_has(t, alias), F.fresh(e))),
+            ("entry-has-type-or-alias-and-the-options",
+             z3.And(F.new.d_has(Val.a(e), sid("type")),
+                    z3.ForAll([k], z3.Implies(k != sid("type"), z3.And(F.new.d_has(Val.a(e), k) == F.old.d_has(cfg, k),
+                                                                       z3.Implies(F.old.d_has(cfg, k), F.new.d_get(Val.a(e), k) == F.old.d_get(cfg, k)))),
+                              patterns=[F.new.d_has(Val.a(e), k)]))),
+            ("other-aliases-untouched", z3.ForAll([k], z3.Implies(z3.And(k != alias, old_cc != VNone),
+                                                                  z3.And(F.new.d_has(t, k) == F.old.d_has(Val.a(old_cc), k),
+                                                                         F.new.d_get(t, k) == F.old.d_get(Val.a(old_cc), k))),
+                                                  patterns=[F.new.d_has(t, k)])),
+        ]
+
+    def local_ensures(self, F):
+        s = F.addr("self")
+        alias, ty = F.t("alias"), F.t("type")
+        e = F.new.d_get(Val.a(F.new.fld("_child_components", s)), alias)
+        cfg = F.addr("config")
+        # `type or alias`: pyvc's truth of an ANY value
+        tv = F.new.d_get(Val.a(e), sid("type"))
+        return [("type-defaults-to-the-alias", z3.Or(z3.And(F.old.d_has(cfg, sid("type")), tv == F.old.d_get(cfg, sid("type"))), tv == ty, tv == alias)),
+                ("explicit-type-kept", z3.Implies(z3.And(z3.Not(F.old.d_has(cfg, sid("type"))), isstr(ty), ty != sid("")), tv == ty)),
+                ("missing-type-is-the-alias", z3.Implies(z3.And(z3.Not(F.old.d_has(cfg, sid("type"))), ty == VNone), tv == alias))]
+
+    def raises(self, F):
+        started, bad_alias, dup = self._bad(F)
+        d = z3.Const("d!ac", I)
+        return [("refused-only-for-a-documented-reason", z3.Or(started, bad_alias, dup)),
+                ("error-class", z3.If(started, F.exc_is("RuntimeError"), z3.If(bad_alias, F.exc_is("TypeError"), F.exc_is("ValueError"))))]
+
+    def local_raises(self, F):
+        s = F.addr("self")
+        return [("nothing-written-when-refused", z3.And(F.new.h("w_dict") == z3.K(I, z3.BoolVal(False)),
+                                                       F.new.fld("_child_components", s) == F.old.fld("_child_components", s)))]
+
+
+def register4(reg):
+    reg.add(AddComponent)
